@@ -296,9 +296,14 @@ func (fs *FS) Rename(oldname, newname string) error {
 		if oldname == newname {
 			return nil
 		}
-		if newFile, err := fs.getFile(newname); err == nil && newFile.Mode().IsDir() {
+		newFile, err := fs.getFile(newname)
+		if err == nil && newFile.Mode().IsDir() {
 			// like os.Rename, never replace a directory with a file
 			return &hackpadfs.LinkError{Op: "rename", Old: oldname, New: newname, Err: hackpadfs.ErrExist}
+		}
+		if err != nil && !errors.Is(err, hackpadfs.ErrNotExist) {
+			// the destination could not be inspected: do not risk replacing a directory
+			return &hackpadfs.LinkError{Op: "rename", Old: oldname, New: newname, Err: err}
 		}
 		contents, err := oldFile.fileData.Data()
 		if err != nil {
